@@ -363,6 +363,10 @@ def check_tree(tree, spellings, env_rows, export_envs=99, with_model=False):
                     got = Foreign('raised:%s' % type(ex).__name__)
                 ref = exp if exp is not None else (seen_values[i][2] if i in seen_values else None)
                 if ref is not None and not same_value(got, ref) and not (exp is None and same_value(ref, got)):
+                    if exp is None:
+                        # the reference value is what another spelling of the tree gave: a sign run in THAT spelling (open
+                        # findings F1/F2) makes the disagreement theirs, exactly as in the invariance oracle above
+                        xf = xf | {f for f in seen_values[i][1] if f in ('run:bin-un', 'run:un-un')}
                     fail('export-value', xf, got_class(got), 'exported text %r with %r -> %r, the formula %r gives %r' % (
                         ex_text, env, got, sp.text, ref))
     # one entry per signature is enough for a case
